@@ -259,7 +259,7 @@ func checkUnit(r *vk.Run, uc unitCase) {
 	}
 	var rps []ref.Rtp
 	var raws [][]byte
-	wantTs := uint32(uint64(float64(uc.TimeMs)*float64(uc.Clock)/1000) & 0xFFFFFFFF)
+	wantTs := uint32(uint64(uc.TimeMs) * uint64(uc.Clock) / 1000 & 0xFFFFFFFF) // exact integer arithmetic
 	for i, p := range pkts {
 		rr, err := ref.ParseRtp(p.Raw)
 		if err != nil {
@@ -606,6 +606,30 @@ func main() {
 				}
 				ucs = append(ucs, unitCase{Codec: "avc", Sizes: []int{30}, Hdr: []byte{0x65}, Limit: 8, Mode: "nalu", Clock: clock, TimeMs: tm, FirstSeq: fs})
 			}
+		}
+	}
+	// every media time of the first seconds, at every clock rate (a conversion through floating point must
+	// land on the exact tick for each of them), and around later whole seconds
+	for _, clock := range []int{8000, 16000, 44100, 48000, 90000} {
+		var tms []int64
+		maxMs := int64(3000)
+		if !r.Quick() {
+			maxMs = 20000
+		}
+		for t := int64(0); t <= maxMs; t++ {
+			tms = append(tms, t)
+		}
+		for _, base := range []int64{60000, 3600000, 47721858} {
+			for d := int64(-20); d <= 20; d++ {
+				tms = append(tms, base+d)
+			}
+		}
+		for _, tm := range tms {
+			codec, hdr := "g711a", []byte(nil)
+			if clock == 90000 {
+				codec, hdr = "avc", []byte{0x65}
+			}
+			ucs = append(ucs, unitCase{Codec: codec, Sizes: []int{4}, Hdr: hdr, Limit: 1200, Mode: "nalu", Clock: clock, TimeMs: tm, FirstSeq: 3})
 		}
 	}
 	r.Cov("unit_cases", len(ucs))
